@@ -485,6 +485,18 @@ impl TestGraph {
             .map_err(err_info)
     }
 
+    /// The plan `Graph::partial_run` starts from: `allow_missing_inputs` is set.
+    pub fn plan_allow_missing(&self, inputs: &[u32], outputs: &[u32]) -> Result<Vec<u32>, ErrInfo> {
+        self.graph
+            .execution_plan(
+                &ids(inputs),
+                &ids(outputs),
+                crate::graph::PlanOptions { allow_missing_inputs: true, captures_available: false },
+            )
+            .map(|plan| plan.into_iter().map(|id| id.as_u32()).collect())
+            .map_err(err_info)
+    }
+
     /// Current contents of all constant nodes of the top-level graph, sorted by node ID.
     pub fn constants(&self) -> Vec<(u32, Vec<i32>)> {
         let mut out: Vec<(u32, Vec<i32>)> = self
